@@ -26,9 +26,12 @@ Lo(s, r) == s.succ[Abs(r)][2]
 Hi(s, r) == s.succ[Abs(r)][3]
 NV(s) == Len(s.names)
 NLevels(s) == Len(s.order)
-NameIdx(s, nm) == CHOOSE k \in 1..Len(s.names) : s.names[k] = nm
+(* total: 0 for a name outside the universe (then VarF(n, 0) is the impossible set) *)
+NameIdx(s, nm) == IF \E k \in 1..Len(s.names) : s.names[k] = nm
+                  THEN CHOOSE k \in 1..Len(s.names) : s.names[k] = nm ELSE 0
 Declared(s) == {s.order[i] : i \in 1..Len(s.order)}
-LevelOf(s, nm) == (CHOOSE i \in 1..Len(s.order) : s.order[i] = nm) - 1
+LevelOf(s, nm) == IF \E i \in 1..Len(s.order) : s.order[i] = nm
+                  THEN (CHOOSE i \in 1..Len(s.order) : s.order[i] = nm) - 1 ELSE -1
 VarNumAtLevel(s, l) == NameIdx(s, s.order[l + 1])
 
 (* ---- denotation: the function of a signed reference, BY VARIABLE NAME,
@@ -45,7 +48,7 @@ DenSlow(s, r) == {a \in Univ(NV(s)) : Eval(s, r, a)}
    D (a "view", WithD) carries the map node -> model set, so that a trace
    verdict computes every node's denotation once.  MC_BoolFun / MC_Core check
    that DenMap agrees with the path-walking definition above. *)
-NodesAt(s, l) == {n \in Nodes(s) : s.succ[n][1] = l}
+NodesAt(s, l) == {n \in Nodes(s) \ {1} : s.succ[n][1] = l}     \* the terminal is never rebuilt, whatever level it claims
 RECURSIVE DenUp(_, _, _)
 DenUp(s, l, D) ==   \* D covers every node at a level > l
   IF l < 0 THEN D
